@@ -70,6 +70,12 @@ func families(thorough bool) []family {
 	// after, in functions defined earlier and later, in another file and spelled user:name
 	fams = append(fams, family{name: "nset", cfg: gcfg{Names: ab, NestedSet: true, DefNames: 1, MaxW: 7 + 2*d, MaxItems: 3, HoleMaxW: 1, FinalMaxW: 2, Styles: 1, Files: true, FixParam: true, Redefine: true}})
 	fams = append(fams,
+		// the other spellings the export builtin accepts: (export '(n m)) and (export "n")
+		family{name: "expform", cfg: gcfg{Names: ab, ExportForms: true, Packages: true, MaxW: 6 + d, MaxItems: 4, HoleMaxW: 1, FinalMaxW: 2, Styles: 1, FixParam: true}},
+		// three-file sessions, the same global defined in more than one file
+		family{name: "files3", cfg: gcfg{Names: ab, DefNames: 1, Files: true, MaxBreaks: 2, Redefine: true, MaxW: 8 + d, MaxItems: 5, HoleMaxW: 1, FinalMaxW: 2, Styles: 1, FixParam: true}},
+	)
+	fams = append(fams,
 		// `list` itself redefined (bodies are tagged with vector instead)
 		family{name: "lang-list", cfg: gcfg{Names: []string{"list", "a"}, LangName: true, Wrap: "vector", MaxW: 4 + d, MaxItems: 2, Styles: 1, HoleMaxW: 2}},
 		// a builtin name defined in the user package and in a named package, referenced unqualified and qualified
@@ -484,6 +490,8 @@ func featureList(c gcfg) []string {
 	add(c.Redefine, "top-level redefinition")
 	add(c.Packages, "in-package, export, use-package, pkg:name")
 	add(c.Files, "two-file sessions")
+	add(c.ExportForms, "export in list form and string form")
+	add(c.MaxBreaks > 1, fmt.Sprintf("up to %d files per session", c.MaxBreaks+1))
 	add(c.NestedSet, "top-level set nested in if (one / both branches), progn, let, cond, dotimes, handler-bind")
 	add(c.LangName, "the first pool name is bound by the language (builtin / special operator / stock macro / stdlib export)")
 	add(c.Stdlib, "runtime with the standard library; the session starts with "+strings.TrimSpace(c.Prelude))
